@@ -21,7 +21,7 @@ s0 = socket.socket()
 s0.bind(("127.0.0.1", 0))
 port = s0.getsockname()[1]
 s0.close()
-p = subprocess.Popen([sys.executable, os.path.join(REPO, "bin", "rpyc_registry.py"), "-p", str(port), "-q"],
+p = subprocess.Popen([sys.executable, os.path.join(REPO, "bin", "rpyc_registry.py"), "-p", str(port), "--logfile", os.devnull],
                      env=dict(os.environ, PYTHONPATH=REPO), stdout=subprocess.DEVNULL, stderr=subprocess.PIPE)
 sock = socket.socket(socket.AF_INET, socket.SOCK_DGRAM)
 sock.settimeout(1.5)
